@@ -724,7 +724,7 @@ def process_families(ck, sub_seed, n):
                     vb = np.array(list(b.conditional_parameters[p].parameters.values()), dtype=float)
                     xs = np.array([0.5, 1.5, 3.0, 5.0])
                     fa, fb = a.conditional_parameters[p](xs), b.conditional_parameters[p](xs)
-                    if not np.allclose(fa, fb, rtol=1e-5, atol=1e-8):
+                    if not np.allclose(fa, fb, rtol=DEP_ORDER_RTOL, atol=1e-6):
                         bad.append(("order_invariant", f"dependence function of {p}: {va.tolist()} vs {vb.tolist()}"))
         for pred, detail in bad:
             ck.fail({"entry": "GlobalHierarchicalModel.fit", "predicate": pred, "families": True}, case, detail)
@@ -930,10 +930,16 @@ def process_families2(ck, sub_seed, n):
                 xs = np.asarray(a.conditioning_values, dtype=float)
                 for p in a.conditional_parameters:
                     fa, fb = a.conditional_parameters[p](xs), b.conditional_parameters[p](xs)
-                    if not np.allclose(fa, fb, rtol=1e-5, atol=1e-8):
+                    if not np.allclose(fa, fb, rtol=DEP_ORDER_RTOL, atol=1e-6):
                         bad.append(("order_invariant", f"dimension {i}: dependence function of {p} differs after permuting the rows"))
     for pred, detail in bad:
         ck.fail(dict(sig, predicate=pred), case, detail)
+
+
+# Both fits are least-squares fits of the same (reference, estimate) pairs up to summation-order noise of ~1e-10 in the
+# estimates; curve_fit stops at ftol = xtol = 1.5e-8, which a three-parameter non-linear shape amplifies to ~1e-4 in the
+# function values (seen in the thorough soak: asym3, 4e-4 in the parameters). "The same model" is judged within that.
+DEP_ORDER_RTOL = 2e-3
 
 
 def _dep(func, pars):
